@@ -2,3 +2,4 @@ import Norad.Props.C11
 import Norad.Props.C06
 import Norad.Props.C03
 import Norad.Props.C18
+import Norad.Props.C20
